@@ -22,6 +22,7 @@ type coreProfile struct {
 	keepMode  bool // the NoDelay calls leave the no-delay MODE alone (first argument -1): boundary B4
 	growWnd   bool // a stalled reader's endpoint enlarges its receive window mid-stall
 	shrinkWnd bool // ... or lowers it below what already awaits the reader (C04: the advertisement stays truthful)
+	slowTx    int  // % of cases in which an endpoint's output callback blocks (time passes inside flush / Input / Update)
 	stall     int // % of cases in which one reader pauses for a while
 	fec       int // % of deliveries fed as non-regular (FEC-recovered) packets
 	bigSend   bool
@@ -210,6 +211,13 @@ func runCoreHistory(s *coreSim, rng *vrng, p coreProfile) (info coreCaseInfo) {
 		stallTo = stallFrom + rng.intn(ticks)
 	}
 	sendBias := rng.pick(20, 50, 80)
+	if p.slowTx > 0 && rng.chance(p.slowTx) {
+		for e := 0; e < 2; e++ {
+			if rng.chance(60) {
+				s.SetTx(e, uint32(rng.pick(1, 2, 5, 17)))
+			}
+		}
+	}
 	startClock := s.now
 	for t := 0; t < ticks && !s.dead; t++ {
 		// clock
